@@ -6,9 +6,10 @@ import z3
 I, B = z3.IntSort(), z3.BoolSort()
 
 
-def count_fn(name):
+def count_fn(name, step_trigger=False):
     """ghost prefix-count function and its defining axioms as spec text.
-    returns (ghost builder, defs(pred_of_k, n))"""
+    returns (ghost builder, defs(pred_of_k, n)); step_trigger: the step axiom is instantiated only where name(k + 1) occurs
+    (no chain name(k) -> name(k + 1) -> name(k + 2) ... of instances)"""
     from .values import VSpecFn, VInt
     from .ops import to_int_z
     f = z3.Function(name, I, I)
@@ -18,7 +19,7 @@ def count_fn(name):
         """pred: python function index-text -> spec text"""
         return [
             (f"{name}.def.zero", f"{name}(0) == 0"),
-            (f"{name}.def.step", f"forall(k, 0, {n}, {name}(k + 1) == {name}(k) + (1 if ({pred('k')}) else 0))"),
+            (f"{name}.def.step", f"forall(k, 0, {n}, {name}(k + 1) == {name}(k) + (1 if ({pred('k')}) else 0)" + (f", {name}(k + 1))" if step_trigger else ")")),
             # consequences proved abstractly by the lemma tasks of add_count_lemmas (stated pairwise, DESIGN 2.5)
             (f"{name}.lemma.monotone", f"forall(j, 0, {n} + 1, forall(k, 0, {n} + 1, implies(j <= k, {name}(j) <= {name}(k))))"),
             (f"{name}.lemma.bounded", f"forall(k, 0, {n} + 1, 0 <= {name}(k) and {name}(k) <= k)"),
@@ -146,3 +147,30 @@ def add_count_lemmas(P):
     for nm, b in (("count.monotone.base", mono_base), ("count.monotone.step", mono_step), ("count.bounded.base", bound_base),
                   ("count.bounded.step", bound_step), ("count.strict_after_hit.base", strict_base), ("count.strict_after_hit.step", strict_step)):
         P.lemma(nm, b)
+
+
+def rank_inverse(name, count, miss):
+    """ghost inverse of the order-preserving enumeration of the indices k that MISS the counted predicate: k -> k - count(k).
+    name(k - count(k)) == k for every missing k (well defined: the enumeration is injective); the listed consequence — every position
+    below n - count(n) is the rank of a missing index below n — is proved abstractly by add_rank_lemmas (induction on n).
+    returns (ghost builder, defs(n)); `miss(k)`: spec text of 'k misses the predicate'"""
+    ghost = int_fn(name, 1)
+
+    def defs(n):
+        return [(f"{name}.def", f"forall(k, 0, {n}, implies({miss('k')}, {name}(k - {count}(k)) == k), {count}(k))"),
+                (f"{name}.lemma.onto", f"forall(g, 0, {n} + 1, forall(q, 0, g - {count}(g), 0 <= {name}(q) and {name}(q) < g and ({miss(f'{name}(q)')}) and "
+                                       f"{name}(q) - {count}({name}(q)) == q))")]
+    return ghost, defs
+
+
+def add_rank_lemmas(P):
+    """for any prefix count c of any predicate p and any u with u(k - c(k)) = k on the k missing p: every q < n - c(n) is the rank of a missing k < n"""
+    c = z3.Function("c", I, I)
+    p = z3.Function("p", I, B)
+    u = z3.Function("u", I, I)
+    k, q, n = z3.Ints("k q n")
+    defs = [c(0) == 0, z3.ForAll([k], z3.Implies(k >= 0, c(k + 1) == c(k) + z3.If(p(k), 1, 0))),
+            z3.ForAll([k], z3.Implies(z3.And(k >= 0, z3.Not(p(k))), u(k - c(k)) == k))]
+    claim = lambda m: z3.ForAll([q], z3.Implies(z3.And(0 <= q, q < m - c(m)), z3.And(0 <= u(q), u(q) < m, z3.Not(p(u(q))), u(q) - c(u(q)) == q)))
+    P.lemma("rank.onto.base", lambda z: (defs, claim(z3.IntVal(0))))
+    P.lemma("rank.onto.step", lambda z: (defs + [n >= 0, claim(n)], claim(n + 1)))
